@@ -1,5 +1,8 @@
 (* C31 — Every optimizer rule returns a well-formed plan. Pins, `exact`, Print Assumptions only.
-   `wf_plan`, `schema_eq` (C31/Model.v) are the SAME functions the check evaluates on the engine's serialised plans. *)
+   `wf_plan`, `wf_plan_q`, `schema_eq` (C31/Model.v) are the SAME functions the check evaluates on the engine's serialised plans.
+   wf_plan  = wf_plan_gen resolves   : every reference resolves the way the executor resolves it (find_column_index);
+   wf_plan_q = wf_plan_gen resolves_q : ... and a qualified reference q.n denotes a field (q, n) or an unqualified field n,
+                                        never the same-named column of another relation. *)
 From QV Require Import C31.Model C31.Proofs.
 Open Scope Z_scope.
 
@@ -7,50 +10,89 @@ Open Scope Z_scope.
    schema carries its bare name; qualifiers only select among several such fields *)
 Theorem C31_resolves_iff : forall s c, resolves s c = existsb (fun f => f_name f =? r_name c) s.
 Proof. exact resolves_iff. Qed.
+Theorem C31_resolves_q_resolves : forall s c, resolves_q s c = true -> resolves s c = true.
+Proof. exact resolves_q_resolves. Qed.
+
+(* a semi join pushed onto the wrong join input: executable, but its key denotes another relation's column *)
+Theorem C31_wrong_side_semi_refuted :
+  wf_plan [] wrong_side_semi = true /\ wf_plan_q [] wrong_side_semi = false /\
+  resolve (schema_of (PScan [mkField (Some 1) 10 100; mkField (Some 1) 11 100; mkField (Some 1) 12 100] [])) (mkRef (Some 2) 10) = Some 0%nat /\
+  resolves_strict [mkField (Some 1) 10 100; mkField (Some 1) 11 100; mkField (Some 1) 12 100] (mkRef (Some 2) 10) = false.
+Proof. exact wrong_side_semi_refuted. Qed.
 
 (* rule_preserves_wf: each modelled rewrite maps a well-formed plan (all references resolve against the child schemas or the
    enclosing scopes, expression lists match the declared schemas) to a well-formed plan with the same output schema
-   (qualifiers, names, types) *)
+   (qualifiers, names, types) — for run-time resolution and for qualifier-respecting resolution *)
 Theorem C31_conj_split_preserves_wf : forall n outer p,
   wf_plan outer p = true ->
   wf_plan outer (conj_split n p) = true /\ schema_eq (schema_of (conj_split n p)) (schema_of p) = true.
-Proof. exact conj_split_preserves_wf. Qed.
+Proof. intros until p. exact (conj_split_preserves_wf resolves n outer p). Qed.
+Theorem C31_conj_split_preserves_wf_q : forall n outer p,
+  wf_plan_q outer p = true ->
+  wf_plan_q outer (conj_split n p) = true /\ schema_eq (schema_of (conj_split n p)) (schema_of p) = true.
+Proof. intros until p. exact (conj_split_preserves_wf resolves_q n outer p). Qed.
 
 Theorem C31_push_filter_left_preserves_wf : forall outer p,
   wf_plan outer p = true ->
   wf_plan outer (push_filter_left p) = true /\ schema_eq (schema_of (push_filter_left p)) (schema_of p) = true.
-Proof. exact push_filter_left_preserves_wf. Qed.
+Proof. intros until p. exact (push_filter_left_preserves_wf resolves resolves_ok outer p). Qed.
+Theorem C31_push_filter_left_preserves_wf_q : forall outer p,
+  wf_plan_q outer p = true ->
+  wf_plan_q outer (push_filter_left p) = true /\ schema_eq (schema_of (push_filter_left p)) (schema_of p) = true.
+Proof. intros until p. exact (push_filter_left_preserves_wf resolves_q resolves_q_ok outer p). Qed.
 
 Theorem C31_prune_scan_preserves_wf : forall outer p,
   wf_plan outer p = true ->
   wf_plan outer (prune_scan p) = true /\ schema_eq (schema_of (prune_scan p)) (schema_of p) = true.
-Proof. exact prune_scan_preserves_wf. Qed.
+Proof. intros until p. exact (prune_scan_preserves_wf resolves resolves_ok outer p). Qed.
+Theorem C31_prune_scan_preserves_wf_q : forall outer p,
+  wf_plan_q outer p = true ->
+  wf_plan_q outer (prune_scan p) = true /\ schema_eq (schema_of (prune_scan p)) (schema_of p) = true.
+Proof. intros until p. exact (prune_scan_preserves_wf resolves_q resolves_q_ok outer p). Qed.
 
 Theorem C31_pack_join_keys_preserves_wf : forall outer p,
   wf_plan outer p = true ->
   wf_plan outer (pack_join_keys p) = true /\ schema_eq (schema_of (pack_join_keys p)) (schema_of p) = true.
-Proof. exact pack_join_keys_preserves_wf. Qed.
+Proof. intros until p. exact (pack_join_keys_preserves_wf resolves outer p). Qed.
+Theorem C31_pack_join_keys_preserves_wf_q : forall outer p,
+  wf_plan_q outer p = true ->
+  wf_plan_q outer (pack_join_keys p) = true /\ schema_eq (schema_of (pack_join_keys p)) (schema_of p) = true.
+Proof. intros until p. exact (pack_join_keys_preserves_wf resolves_q outer p). Qed.
 
 Theorem C31_pack_group_keys_preserves_wf : forall pk ty64 outer p,
   wf_plan outer p = true ->
-  wf_plan outer (pack_group_keys pk ty64 p) = true
-  /\ schema_eq (schema_of (pack_group_keys pk ty64 p)) (schema_of p) = true.
-Proof. exact pack_group_keys_preserves_wf. Qed.
+  wf_plan outer (pack_group_keys pk ty64 p) = true /\ schema_eq (schema_of (pack_group_keys pk ty64 p)) (schema_of p) = true.
+Proof. intros until p. exact (pack_group_keys_preserves_wf resolves resolves_ok pk ty64 outer p). Qed.
+Theorem C31_pack_group_keys_preserves_wf_q : forall pk ty64 outer p,
+  wf_plan_q outer p = true ->
+  wf_plan_q outer (pack_group_keys pk ty64 p) = true /\ schema_eq (schema_of (pack_group_keys pk ty64 p)) (schema_of p) = true.
+Proof. intros until p. exact (pack_group_keys_preserves_wf resolves_q resolves_q_ok pk ty64 outer p). Qed.
 
 Theorem C31_group_key_reduce_preserves_wf : forall fd k outer p,
   wf_plan outer p = true ->
-  wf_plan outer (group_key_reduce fd k p) = true
-  /\ schema_eq (schema_of (group_key_reduce fd k p)) (schema_of p) = true.
-Proof. exact group_key_reduce_preserves_wf. Qed.
+  wf_plan outer (group_key_reduce fd k p) = true /\ schema_eq (schema_of (group_key_reduce fd k p)) (schema_of p) = true.
+Proof. intros until p. exact (group_key_reduce_preserves_wf resolves resolves_ok fd k outer p). Qed.
+Theorem C31_group_key_reduce_preserves_wf_q : forall fd k outer p,
+  wf_plan_q outer p = true ->
+  wf_plan_q outer (group_key_reduce fd k p) = true /\ schema_eq (schema_of (group_key_reduce fd k p)) (schema_of p) = true.
+Proof. intros until p. exact (group_key_reduce_preserves_wf resolves_q resolves_q_ok fd k outer p). Qed.
 
 (* alone or in sequence *)
 Theorem C31_rule_sequence_preserves_wf : forall (rules : list (plan -> plan)),
-  (forall R, In R rules -> forall outer p, wf_plan outer p = true ->
-     wf_plan outer (R p) = true /\ schema_eq (schema_of (R p)) (schema_of p) = true) ->
+  (forall Rw, In Rw rules -> forall outer p, wf_plan outer p = true ->
+     wf_plan outer (Rw p) = true /\ schema_eq (schema_of (Rw p)) (schema_of p) = true) ->
   forall outer p, wf_plan outer p = true ->
-    wf_plan outer (fold_left (fun acc R => R acc) rules p) = true
-    /\ schema_eq (schema_of (fold_left (fun acc R => R acc) rules p)) (schema_of p) = true.
-Proof. exact rule_sequence_preserves_wf. Qed.
+    wf_plan outer (fold_left (fun acc Rw => Rw acc) rules p) = true
+    /\ schema_eq (schema_of (fold_left (fun acc Rw => Rw acc) rules p)) (schema_of p) = true.
+Proof. exact (rule_sequence_preserves_wf resolves). Qed.
+(* alone or in sequence *)
+Theorem C31_rule_sequence_preserves_wf_q : forall (rules : list (plan -> plan)),
+  (forall Rw, In Rw rules -> forall outer p, wf_plan_q outer p = true ->
+     wf_plan_q outer (Rw p) = true /\ schema_eq (schema_of (Rw p)) (schema_of p) = true) ->
+  forall outer p, wf_plan_q outer p = true ->
+    wf_plan_q outer (fold_left (fun acc Rw => Rw acc) rules p) = true
+    /\ schema_eq (schema_of (fold_left (fun acc Rw => Rw acc) rules p)) (schema_of p) = true.
+Proof. exact (rule_sequence_preserves_wf resolves_q). Qed.
 
 (* the rewrites are not vacuous: they fire on a concrete well-formed plan *)
 Theorem C31_rewrites_example :
@@ -64,11 +106,20 @@ Theorem C31_rewrites_example :
 Proof. exact rewrites_example. Qed.
 
 Print Assumptions C31_resolves_iff.
+Print Assumptions C31_resolves_q_resolves.
+Print Assumptions C31_wrong_side_semi_refuted.
 Print Assumptions C31_conj_split_preserves_wf.
+Print Assumptions C31_conj_split_preserves_wf_q.
 Print Assumptions C31_push_filter_left_preserves_wf.
+Print Assumptions C31_push_filter_left_preserves_wf_q.
 Print Assumptions C31_prune_scan_preserves_wf.
+Print Assumptions C31_prune_scan_preserves_wf_q.
 Print Assumptions C31_pack_join_keys_preserves_wf.
+Print Assumptions C31_pack_join_keys_preserves_wf_q.
 Print Assumptions C31_pack_group_keys_preserves_wf.
+Print Assumptions C31_pack_group_keys_preserves_wf_q.
 Print Assumptions C31_group_key_reduce_preserves_wf.
+Print Assumptions C31_group_key_reduce_preserves_wf_q.
 Print Assumptions C31_rule_sequence_preserves_wf.
+Print Assumptions C31_rule_sequence_preserves_wf_q.
 Print Assumptions C31_rewrites_example.
